@@ -519,20 +519,25 @@ def _closure_src(repo, c, f, depth=0):
     return txt
 
 
-def _info_domain(repo, c, expr_txt):
-    if "_input_info" in expr_txt or "in_info" in expr_txt:
-        return "IN"
-    if "_output_info" in expr_txt:
-        return "OUT"
-    if "self.info" in expr_txt:
-        g = repo.resolve(c, "info", "getter")
-        if g is not None:
-            t = U(g.node)
-            if "_output_info" in t:
-                return "OUT"
-            if "_input_info" in t:
-                return "IN"
-    return None
+def _info_domain(repo, c, expr, f=None):
+    """Which info (the slot's own / outgoing one or the incoming one) an expression denotes: evaluated abstractly on an
+    object whose public `info` and `in_info` properties read two distinct markers."""
+    from ..absbase import FinamInterp, set_backed
+    from ..interp import AnalysisError, Obj, Raised, Undecided
+    if isinstance(expr, str):
+        try:
+            expr = ast.parse(expr, mode="eval").body
+        except SyntaxError:
+            return None
+    o = Obj(cls=c, label=c.name)
+    outi, ini = Obj(label="out_info"), Obj(label="in_info")
+    set_backed(repo, o, "in_info", ini)
+    set_backed(repo, o, "info", outi)
+    try:
+        v = FinamInterp(repo).eval(expr, {"self": o}, f.module if f is not None else None)
+    except (Raised, Undecided, AnalysisError, KeyError):
+        return None
+    return "OUT" if v is outi else "IN" if v is ini else None
 
 
 def _label_domain(repo, c, up):
@@ -540,7 +545,7 @@ def _label_domain(repo, c, up):
     labels = []
     for n in fn_walk(up.node):
         if isinstance(n, ast.Call) and call_name(n) in ("Quantity", "quantify") and len(n.args) >= 2:
-            labels.append((n.lineno, _info_domain(repo, c, U(n.args[1]))))
+            labels.append((n.lineno, _info_domain(repo, c, n.args[1], up)))
     if not labels:
         for n in fn_walk(up.node):
             if isinstance(n, ast.Call) and isinstance(n.func, ast.Attribute) and U(n.func.value) == "super()":
@@ -582,7 +587,7 @@ def _value_domain(repo, c, f, e, depth=0):
         if name == "pull_data" and isinstance(e.func, ast.Attribute) and self_attr(e.func):
             return "IN"
         if name == "prepare" and len(e.args) >= 2:
-            return _info_domain(repo, c, U(e.args[1]))
+            return _info_domain(repo, c, e.args[1], f)
         if name in ("strip_time", "copy", "asarray", "array") and e.args:
             return _value_domain(repo, c, f, e.args[0], depth + 1)
     return None
